@@ -16,6 +16,9 @@ HARNESS = os.path.join(VERIF, "harness")
 WORK = os.path.join(VERIF, ".work")
 REPLAYS = os.path.join(VERIF, "replays")
 EVIDENCE = os.path.join(VERIF, "evidence")
+# runs against deliberately modified trees (tools/seed_check.py) must not overwrite the committed evidence
+if os.environ.get("VERIF_EVIDENCE_DIR"):
+    EVIDENCE = os.environ["VERIF_EVIDENCE_DIR"]
 CORPUS = os.path.join(VERIF, "corpus")
 KNOWN = os.path.join(VERIF, "known_findings.json")
 
